@@ -247,10 +247,19 @@ class CFG:
     def stmt_nodes(self):
         return [n for n in self.nodes.values() if n.stmt is not None]
 
-    def pruned(self, decided):
+    def pruned(self, decided, threw=()):
         """A view of the graph in which the branch not taken of every decided test is removed.
-        decided: iterable of (stmt, bool) for if/while/assert statements of this function."""
+        decided: iterable of (stmt, bool) for if/while/assert statements of this function.
+        threw: statements of a `try` body known to have raised into a handler (their normal continuation is removed;
+        only the 'exc' / 'raise' edges stay)."""
         rem = set(self._removed)
+        for stmt in threw:
+            nid = self._by_stmt.get(id(stmt))
+            if nid is None:
+                continue
+            for (t, lab) in self.succ[nid]:
+                if lab not in ("exc", "raise"):
+                    rem.add((nid, t, lab))
         for stmt, val in decided:
             if id(stmt) not in self._by_stmt:
                 continue
